@@ -118,7 +118,7 @@ theorem generateMessageId_is_genId (ns : Nat) (h : ns < 2 ^ 31 * 1000000000) :
   have hb : ((1000#64 * 1000#64) * 1000#64) = 1000000000#64 := by decide
   have hlt : ns < 2 ^ 63 := by omega
   have h1 : ns % 2 ^ 64 = ns := Nat.mod_eq_of_lt (by omega)
-  simp only [hb]
+  try simp only [hb]
   rw [sdiv_nonneg _ _ (msb_ofNat ns hlt) (by decide), srem_nonneg _ _ (msb_ofNat ns hlt) (by decide)]
   have hs : (BitVec.ofNat 64 ns / 1000000000#64).toNat = ns / 1000000000 := by
     simp only [BitVec.toNat_udiv, BitVec.toNat_ofNat, h1]
